@@ -166,6 +166,11 @@ def covTags (r : BatchOut) : List String :=
   (if r.stuck then ["stuck"] else [])
 
 def processLine (op impl : String) : String :=
+  if op.startsWith "real " then
+    -- end-to-end facts of a real-epoll scenario, judged by the harness: bytes delivered before the
+    -- hang-up, hang-up once, Trigger wakes, Close releases, growth rule
+    (if impl == "ok" then "ok |# ok" else s!"ok |# FAIL:real-scenario") ++ " |# ok |# real"
+  else
   match op.splitOn " ; " with
   | [] => "bad-op"
   | hd :: evs =>
@@ -175,11 +180,18 @@ def processLine (op impl : String) : String :=
     let es := pes.map (·.ev)
     let init := initOf pes
     let r := handleBatch buf0 init es
-    let mo := project 7 es r
+    let trig0 := match (field kv "trig0").toNat? with
+      | some t => t
+      | none => 7
+    let mo := project trig0 es r
+    -- Wait's growth rule between consecutive batches of one loop (real-epoll runs only)
+    let growthOk : Bool := match (field kv "prev").splitOn ":" with
+      | [ps, pn] => toNat! (field kv "size") == nextSize (toNat! ps) (toNat! pn) && es.length ≤ toNat! (field kv "size")
+      | _ => true
     let model := if r.stuck then "stuck " ++ showOut mo else showOut mo
     let verdict (o : ObsOut) : String :=
       if !nodupIds es then "skip-dup-ids" else
-      match specCheck buf0 init es o with
+      match specCheck buf0 init es o ++ (if growthOk then [] else ["event-array-growth"]) with
       | [] => "ok"
       | l => "FAIL:" ++ ",".intercalate l
     let iv := match parseOut impl with
